@@ -28,7 +28,7 @@ func init() {
 		ID:    "C20",
 		Level: "exploration",
 		Rule: "E1 bounded-exhaustive enumeration of the kind grammar T ::= scalar | string | [k]T | []T | map[K]T | *T | interface{} | struct{T,…} built with reflect to depth 3 (thorough 4) (every depth-1 type, then W types spread over each level as elements of the next): all 17 scalar kinds (bool, int8..64, int, uint8..64, uint, uintptr, float32/64, complex64/128) at every leaf position of depth-1 composites, a 7-type leaf subset plus 9 types of the previous level for binary structs; arrays of 0 and 2 elements; struct arity 1 and 2; map keys string/int32/uint; " +
-			"values per type from a shape alphabet (slices nil/empty/1/2 elements, maps nil/empty/1/2 entries, pointers nil/non-nil, interfaces nil/scalar/string/pointer/struct, strings \"\",\"a\",\"abc\" and 40 bytes; over leaf types also slices of 9 and 70 elements and maps of 9 and 40 entries; pointer values are deliberately REUSED in both elements of arrays and both fields of structs, so shared acyclic pointers occur). Oracle: the generator returns (value, size) and computes the size while building (headers 16/24/8/8/16, 8 for int/uint/uintptr; 64-bit platform asserted). size.Of on every value; Stat(v,d,m) for d in {0,1,3}, m in {0,1,10} and the AvgOf form: the number on the first line equals the expected size. " +
+			"values per type from a shape alphabet (slices nil/empty/1/2 elements, maps nil/empty/1/2 entries, pointers nil/non-nil, interfaces nil/scalar/string/pointer/struct, strings \"\",\"a\",\"abc\" and 40 bytes; over leaf types also slices of 9, 70 and 1025 elements and maps of 9, 40 and 1000 entries; pointer values are deliberately REUSED in both elements of arrays and both fields of structs, so shared acyclic pointers occur). Oracle: the generator returns (value, size) and computes the size while building (headers 16/24/8/8/16, 8 for int/uint/uintptr; 64-bit platform asserted). size.Of on every value; Stat(v,d,m) for d in {0,1,3}, m in {0,1,10} and the AvgOf form: the number on the first line equals the expected size. " +
 			"Plus 9 hand-written values of Go types reflect cannot build (unexported and embedded fields, named types, padding). A case is one (value, function) pair; non-trivial when the type is composite.",
 		Assumptions: []string{
 			"64-bit platform (asserted at start)",
@@ -139,7 +139,7 @@ func c20Unary(e c20Type) []c20Type {
 		ct.vals = append(ct.vals, c20Val{v2, 24 + a.size + b.size, "[]{" + a.desc + "," + b.desc + "}"})
 		if !e.composite || e.t == c20Iface {
 			// long slices over leaf types: 9 and 70 elements cycling through the element values
-			for _, n := range []int{9, 70} {
+			for _, n := range []int{9, 70, 1025} {
 				v := reflect.MakeSlice(t, n, n)
 				sz := 24
 				for i := 0; i < n; i++ {
@@ -177,7 +177,7 @@ func c20Unary(e c20Type) []c20Type {
 		ct.vals = append(ct.vals, c20Val{m2, 8 + k.s1 + a.size + k.s2 + b.size, t.String() + "{k1:" + a.desc + ",k2:" + b.desc + "}"})
 		if !e.composite || e.t == c20Iface {
 			// 9 and 40 entries: beyond one 8-entry bucket of the runtime's map layout
-			for _, n := range []int{9, 40} {
+			for _, n := range []int{9, 40, 1000} {
 				m := reflect.MakeMap(t)
 				sz := 8
 				for i := 0; i < n; i++ {
@@ -185,7 +185,7 @@ func c20Unary(e c20Type) []c20Type {
 					ks := 0
 					switch k.k1.Kind() {
 					case reflect.String:
-						key := fmt.Sprintf("key%02d", i)
+						key := fmt.Sprintf("key%04d", i)
 						kv, ks = reflect.ValueOf(key), 16+len(key)
 					case reflect.Int32:
 						kv, ks = reflect.ValueOf(int32(100+i)), 4
